@@ -97,6 +97,13 @@ Definition pr_irend (x : list dict * rend) : text :=
   pr_dicts (fst x) ++ T "|" ++
   match snd x with End => T "END" | ErrData n ctx => T "ERR:" ++ pr_nat n ++ T ":" ++ pr_bytes ctx end.
 
+Definition pr_ievents (l : list ievent) : text :=
+  match l with [] => T "-"
+  | _ => join (T "/") (map (fun e => match e with
+                                     | EvRec d => T "R" ++ pr_dict_e d
+                                     | EvErr n ctx => T "E" ++ pr_nat n ++ T ":" ++ pr_bytes ctx
+                                     end) l) end.
+
 (* CSV rows: rows separated by "/", cells by ","; an empty cell is "_"; "-" is no rows; a cell the model cannot print is "?" *)
 Definition p_rows (t : text) : option (list (list str)) :=
   if is_dash t then Some [] else all_some (map (fun r => all_some (map p_str_e (split ","%byte r))) (split "/"%byte t)).
@@ -140,6 +147,9 @@ Definition run_iso (op : text) (args : list text) : option text :=
   else if text_eqb op (T "ipm_read") then
     match args with [cf; cd; bl; f] => Some (opt (p_cfg cf) (fun cf => opt (p_codec cd) (fun cd => opt (p_bool bl) (fun bl =>
         opt (p_bytes f) (fun f => pr_result pr_irend (iread_all 1012 max_vbs_record_length cf cd f bl)))))) | _ => Some bad_input end
+  else if text_eqb op (T "ipm_events") then
+    match args with [cf; cd; bl; f] => Some (opt (p_cfg cf) (fun cf => opt (p_codec cd) (fun cd => opt (p_bool bl) (fun bl =>
+        opt (p_bytes f) (fun f => pr_result pr_ievents (ievents 1012 max_vbs_record_length cf cd f bl)))))) | _ => Some bad_input end
   else if text_eqb op (T "ipm_write") then
     match args with [cf; cd; bl; ms] => Some (opt (p_cfg cf) (fun cf => opt (p_codec cd) (fun cd => opt (p_bool bl) (fun bl =>
         opt (p_dicts ms) (fun ms => pr_result pr_bytes (ipm_file 1012 cf cd bl ms)))))) | _ => Some bad_input end
